@@ -33,13 +33,19 @@ def scheduler_info(ctx):
         canon = idx.canon(ann, ci.module) if ann is not None else None
         if canon in ("asyncio.Semaphore", "asyncio.BoundedSemaphore", "asyncio.locks.Semaphore"):
             info["sem"] = name
-    # semaphore default method
-    info["sem_default"] = None
-    for m in ci.methods.values():
-        for d in m.node.decorator_list:
-            dn = dotted(d) or ""
-            if info["sem"] and dn == f"{info['sem']}.default":
-                info["sem_default"] = m
+    # ... or by what its decorated default builds: the library semaphore, or a class of the package with an acquire/release pair (a hand-written pool)
+    from ..index import ClassInfo as _CI
+    if info["sem"] is None:
+        for m in ci.methods.values():
+            fld = next(((dotted(d) or "")[:-len(".default")] for d in m.node.decorator_list if (dotted(d) or "").endswith(".default")), None)
+            if fld is None:
+                continue
+            for n in walk_no_nested(m.node):
+                if isinstance(n, ast.Return) and isinstance(n.value, ast.Call) and isinstance(n.value.func, (ast.Name, ast.Attribute)):
+                    c = idx.canon(n.value.func, m.module) or ""
+                    obj = idx.lookup(c)
+                    if c in ("asyncio.Semaphore", "asyncio.BoundedSemaphore") or (isinstance(obj, _CI) and idx.method(obj, "acquire") is not None and idx.method(obj, "release") is not None):
+                        info["sem"] = fld
     # states / tasks : from enqueue_task stores
     enq = idx.method(ci, "enqueue_task")
     if enq is None:
@@ -89,6 +95,13 @@ def scheduler_info(ctx):
     for k in ("sem", "states", "tasks"):
         if info[k] is None:
             raise AnalysisError(f"cannot identify the Scheduler field playing the role '{k}'")
+    # semaphore default method
+    info["sem_default"] = None
+    for m in ci.methods.values():
+        for d in m.node.decorator_list:
+            dn = dotted(d) or ""
+            if info["sem"] and dn == f"{info['sem']}.default":
+                info["sem_default"] = m
     ctx.shared["sched_info"] = info
     return info
 
